@@ -341,10 +341,10 @@ PROPS = {
     },
     "C16": {
         "level": "proof",
-        "verus": [("csvsign", None)],
+        "verus": [("csvsign", None), ("csvrow", None)],
         "kani": {"quick": [], "thorough": []},
         "family": ("c16", {"quick": [], "thorough": []}),
-        "explanation": "PARTIAL.  Verus proves the sign clauses on the real functions: FieldMap::amount books a non-empty credit column as +credit, otherwise a non-empty debit column as -debit, neither as an error, and an "
+        "explanation": "(row statements, group `csvrow`: sliced out of csv::import and checked against the real Txn setters - the transaction of a row moves the configured account by the row's signed amount in the row's commodity on the row's date; a running-balance column becomes exactly that balance assertion in the row's commodity and no column means no assertion; a record the rules did not clear is marked pending; a charge column adds a charge posting and leaves the account posting alone) PARTIAL.  Verus proves the sign clauses on the real functions: FieldMap::amount books a non-empty credit column as +credit, otherwise a non-empty debit column as -debit, neither as an error, and an "
                        "`amount` column as +amount for an asset and -amount for a liability account; amount_with_sign gives the secondary amount the requested sign and keeps its magnitude and commodity; Neg for "
                        "OwnedAmount/BorrowedAmount negates the value only; the two expressions of Txn::dest_amount (sliced): without a conversion the counter-posting carries the opposite amount, with one the secondary "
                        "amount with the sign opposite to the row's amount; the statement that orders the rows at the end of csv::import (sliced) keeps an oldest-first statement and reverses a newest-first one.  "
@@ -355,7 +355,7 @@ PROPS = {
         "assumptions": [L0_DECIMAL, "assumed (L1): FieldMap::resolve returns the configured column/template text; str_to_comma_decimal returns None for an empty string, else the number written or an error (it is PrettyDecimal::from_str, C07)",
                         "stand-ins for csv::StringRecord, Template, ImportError (vx/prelude/csv_stub.rs) and for the amount member of Txn (TxnAmounts)"],
         "bounded": ["c16 family: 16 base configurations (account type x amount / credit-debit columns x row order x running balance) + layout variants (columns by 1-based index, `;` and tab delimiters, three skipped head lines one of them blank) + 2 conversion configurations: 66 statements of 4-5 rows"],
-        "not_decided": ["Txn::to_double_entry (bounded family only)", "csv::import row loop (csv crate, regex, HashMap): conversion block, templates (bounded family only)", "that okane's book-keeping accepts the result (bounded family only)"],
+        "not_decided": ["Txn::to_double_entry (bounded family only)", "csv::import as a whole (csv crate reader, record loop, conversion block, templates: bounded family only; the per-row statements are proved on slices)", "that okane's book-keeping accepts the result (bounded family only)"],
     },
     "C17": {
         "level": "other",
